@@ -323,4 +323,5 @@ Definition judge (comp : bytes) (args : list bytes) : list bytes :=
   else if beq comp (s2b "proxytb-C02") then RunProxyTB.judge_tb_with false judge_C02_event args
   else if beq comp (s2b "proxytb-C03") then RunProxyTB.judge_tb_with true judge_C03_event args
   else if beq comp (s2b "proxytb-C04") then RunProxyTB.judge_tb_hist args
+  else if beq comp (s2b "proxytb-C12") then RunProxyTB.judge_tb_hist12 args
   else match judge_bufio comp args with Some r => r | None => [s2b "unknown-component"] end.
